@@ -1337,6 +1337,21 @@ VARIANTS += [
 ]
 
 
+VARIANTS += [
+    V('C01-M50', 'M', ('C01',), FU, 'ThreadPoolExecutor.submit', r'def submit\(self, fn, /, \*args', 'def submit(self, fn, *args', ('C01-11',), note='seeded C01-r7m1 shape'),
+    V('C01-E50', 'E', ('C01', 'C05', 'C08'), FU, 'ThreadPoolExecutor.submit', r'def submit\(self, fn, /, \*args', 'def submit(self, func, /, *args', note='the positional-only parameter renamed (body unchanged would break; only the header name differs in the def line)') if False else V('C01-E50', 'E', ('C01', 'C05', 'C08'), FU, 'ThreadPoolExecutor.submit', r'loud_exception: bool = True', 'loud_exception: bool = True, _unused_option: int = 0', note='another keyword-only option next to loud_exception'),
+    V('C01-M51', 'M', ('C01',), ST, 'ParmapperAsync.__iter__', r'to_stop = threading\.Event\(\)', 'to_stop = self.__dict__.setdefault("_to_stop", threading.Event())', ('C01-12',), note='seeded C01-r7m2 shape: the stop flag kept on the object'),
+    V('C05-M50', 'M', ('C05',), ST, 'fifo_stream', r'feeder\.join\(\)', 'feeder.join(timeout=5)', ('C05-5',), note='seeded C05-r7m2 shape'),
+    V('C05-M51', 'M', ('C05', 'C12'), TH, 'Thread.join', r'super\(\)\.join\(timeout=timeout\)\n(\s+)if self\.is_alive\(\):\n(\s+)# Timed out\n\s+return', r'if not self._future_.done():\n\1    super().join(timeout=timeout)\n\1    if self.is_alive():\n\1        return', ('C05-12', 'C12-4'), note='seeded C05-r7m1 shape'),
+    V('C05-E50', 'E', ('C05', 'C01'), ST, 'fifo_stream', r'feeder\.join\(\)', 'feeder.join(None)'),
+    V('C08-M50', 'M', ('C08',), SA, 'AsyncBuffer.__aiter__', r'z = tasks\.get_nowait\(\)', 'ready_.append(tasks.get_nowait()); z = ready_.pop()', ('C08-2',), note='seeded C08-r7m1 shape (a second container on the consumer side)'),
+    V('C13-M50', 'M', ('C13',), SP, 'MemoryBlock.buf', r'return self\._mem\.buf', 'return self._mem.buf[:]', ('C13-5',), note='seeded C13-r7m1 shape'),
+    V('C19-M50', 'M', ('C19',), ST, 'EagerBatcher.__iter__', r'except queue\.Empty:', 'except Exception:', ('C19-3',), note='seeded C19-r7m2 shape'),
+    V('C19-M51', 'M', ('C19',), ST, 'EagerBatcher.__iter__', r'max\(0, t\)', 'max(0.001, t)', ('C19-3',), note='seeded C19-r7m1 shape'),
+    V('C09-M52', 'M', ('C09',), WK, 'Worker._get_input_batch', r'except Empty:', 'except Exception:', ('C09-4',)),
+]
+
+
 # ---------------------------------------------------------------------- every local that is not a parameter renamed (and, second family, a statement added so that the function is not the recorded one up to renaming)
 def _rename_locals(pad):
     def f(m):
